@@ -388,6 +388,9 @@ type XMPStyle struct {
 	EqWS [2]string
 	// ItemLang: xml:lang qualifiers also on the items of Seq / Bag arrays (dc:subject, dc:creator).
 	ItemLang bool
+	// LongGap > 0: that many bytes of white space (more than the reader's buffer holds) stand
+	// between two elements, or between the last element and the end tag of its parent.
+	LongGap int
 }
 
 // RandXMPStyle draws a style. exotic enables TAB / CR LF separators.
@@ -438,6 +441,9 @@ func RandXMPStyle(r *core.Rng, exotic bool) XMPStyle {
 		}
 	}
 	st.EmptyArrSelfClose = r.Bool()
+	if r.Chance(1, 12) {
+		st.LongGap = r.Pick(1300, 1411, 1538, 1539, 2000, 4096, 9000)
+	}
 	if r.Chance(1, 40) {
 		st.ManyArrays = r.Pick(61, 70, 100, 130, 260)
 	}
@@ -612,8 +618,18 @@ func (rec *XMPRec) Serialise(r *core.Rng, st XMPStyle, forceForm int) []byte {
 			continue
 		}
 		sb.WriteString(">" + st.NL)
-		for _, el := range elems {
+		gapAt := -1
+		if st.LongGap > 0 {
+			gapAt = r.Intn(len(elems) + 1)
+		}
+		for k, el := range elems {
+			if k == gapAt {
+				sb.WriteString(strings.Repeat(" ", st.LongGap/2) + st.NL + strings.Repeat(" ", st.LongGap-st.LongGap/2))
+			}
 			sb.WriteString(st.Indent + st.Indent + st.Indent + el + st.NL)
+		}
+		if gapAt == len(elems) {
+			sb.WriteString(strings.Repeat(" ", st.LongGap/2) + st.NL + strings.Repeat(" ", st.LongGap-st.LongGap/2))
 		}
 		sb.WriteString(st.Indent + st.Indent + "</rdf:Description" + st.EndTagWS + ">" + st.NL)
 	}
